@@ -60,10 +60,10 @@ def build(V, scheme, nfff, record=None):
 
     yadism.log.silent_mode = True
     t, o = cards(V, scheme, nfff, pto=2)
-    if scheme == "ZM-VFNS":
-        # flavour-tagged massless observables next to the inclusive one: their coefficient functions live in the same nf
-        for extra in ("F2_charm", "FL_bottom", "F3_top"):
-            o["observables"][extra] = [dict(x=0.1, Q2=V["Q2"])]
+    EXTRA = ("F2_charm", "FL_bottom", "F3_top") if scheme == "ZM-VFNS" else (("F2_charm", "F2_bottom", "F2_top") if scheme in ("FFNS", "FFN0") else ())
+    # flavour-tagged observables next to the inclusive one: their coefficient functions live in the same nf
+    for extra in EXTRA:
+        o["observables"][extra] = [dict(x=0.1, Q2=V["Q2"])]
     seen_nf = []
 
     def rec_common(self, ker_orders, nf):
@@ -89,10 +89,12 @@ def build(V, scheme, nfff, record=None):
         form = {(k_[0][0], k_[0][1], k_[1]): v for k_, v in cm.linear_form(ks).items()}
         esf_.compute_local()
         tagged = []
-        for extra in ("F2_charm", "FL_bottom", "F3_top"):
+        for extra in EXTRA + (("F2_total",) if scheme != "ZM-VFNS" else ()):
             if extra in r.observables:
                 for k_ in cf.Combiner(r.observables[extra].elements[0]).collect_elems():
-                    tagged.append((extra, type(k_.coeff).__name__, getattr(k_.coeff, "nf", None)))
+                    if ".intrinsic." in type(k_.coeff).__module__:
+                        continue  # massive intrinsic channels are built for the flavours below their own quark (their documented convention)
+                    tagged.append((extra, type(k_.coeff).__module__.split(".")[-2] + "." + type(k_.coeff).__name__, getattr(k_.coeff, "nf", None)))
     seen_nf = SeenNf(seen_nf)
     seen_nf.tagged = tagged  # (observable, channel class, nf of the coefficient function)
     return comb.nf, form, seen_nf
@@ -124,6 +126,30 @@ def replay_tagged(args):
             if n_ is not None and n_ != nf:
                 bad.append((extra, type(k_.coeff).__name__, n_))
     return (True, f"ZM-VFNS at {V}: nf={nf}, but {bad[:4]}") if bad else (False, "all coefficient functions in the active nf")
+
+
+def replay_taggedff(args):
+    import yadism.coefficient_functions as cf
+    import yadism.log
+    from yadism.runner import Runner
+
+    yadism.log.silent_mode = True
+    V = args["values"]
+    t, o = cards(V, args["scheme"], args["nfff"], pto=2)
+    names = ("F2_total", "F2_charm", "F2_bottom", "F2_top")
+    for extra in names[1:]:
+        o["observables"][extra] = [dict(x=0.1, Q2=V["Q2"])]
+    try:
+        r = Runner(t, o)
+    except ValueError as e:
+        return False, f"rejected: {e}"
+    bad = []
+    for extra in names:
+        for k_ in cf.Combiner(r.observables[extra].elements[0]).collect_elems():
+            n_ = getattr(k_.coeff, "nf", None)
+            if ".intrinsic." not in type(k_.coeff).__module__ and n_ is not None and n_ != args["nfff"]:
+                bad.append((extra, type(k_.coeff).__name__, n_))
+    return (True, f"{args['scheme']} NfFF={args['nfff']} at {V}: {bad[:4]}") if bad else (False, "all coefficient functions built for NfFF flavours")
 
 
 def replay_nf(args):
@@ -171,7 +197,7 @@ def replay_beta(args):
     return False, "beta0 follows nf"
 
 
-REPLAYERS = {"tagged": replay_tagged, "nf": replay_nf, "svnf": replay_svnf, "beta": replay_beta}
+REPLAYERS = {"taggedff": replay_taggedff, "tagged": replay_tagged, "nf": replay_nf, "svnf": replay_svnf, "beta": replay_beta}
 
 
 def vals(ctx, model, tag=""):
@@ -284,6 +310,14 @@ def run(chk, only=None):
                     else:
                         chk.report(f"svnf:{scheme}:{nfff}", f"scale-variation manager got nf={seen_nf}, coefficient functions use {nf}", "svnf",
                                    dict(scheme=scheme, nfff=nfff, values=vals(ctx, None)))
+                    if getattr(seen_nf, "tagged", None):
+                        chk.obligations += 1
+                        badt = [t_ for t_ in seen_nf.tagged if t_[2] is not None and t_[2] != nfff]
+                        if not badt:
+                            chk.discharged += 1
+                        else:
+                            chk.report(f"nf:{scheme}:tagged", f"{scheme} NfFF={nfff}: coefficient functions built for another number of flavours: {badt[:3]}", "taggedff",
+                                       dict(scheme=scheme, nfff=nfff, values=vals(ctx, None)))
     # ---- the same nf governs the beta coefficients of the scale-variation terms, whatever was computed before ----
     if only in (None, "beta"):
         from yadism.esf import scale_variations as svmod
